@@ -285,13 +285,24 @@ def gen_exhaustive(tier):
                     yield TreeCase(d, 0, H, B, mode, nums)
 
 
-def gen_random(rng, n, maxN, dims=(1, 2, 3, 4), Hmax=None):
+# deepest leaf level used by the "deep sparse tree" family: inside the proved index guard (Index/OverflowDefs.v: 62, 29, 18, 11)
+# and below 31 because the library computes level-sized quantities with int shifts (1 << level): heights >= 32 are the known
+# finding D16, exercised by a dedicated family of C15 only
+DEEP_L = {1: 30, 2: 29, 3: 18, 4: 11}
+
+
+def gen_random(rng, n, maxN, dims=(1, 2, 3, 4), Hmax=None, deep=True):
     Hmax = Hmax or {1: 7, 2: 6, 3: 5, 4: 4}
     for _ in range(n):
         d = rng.choice(dims)
         H = rng.range(1 if rng.below(10) == 0 else 2, Hmax[d])
         N = rng.choice([1, 2, 3, rng.range(4, 30), rng.range(30, maxN)])
         kind = rng.choice(KINDS)
+        if deep and rng.below(9) == 0:
+            # deep, sparse tree: few particles, many levels (Dim * level beyond 31 bits)
+            H = rng.range(Hmax[d] + 1, DEEP_L[d] + 1)
+            N = rng.choice([1, 2, 3, rng.range(4, 24)])
+            kind = rng.choice(["uniform", "cluster", "corner", "single", "faces"])
         nums = gen_positions(rng, d, H, N, kind)
         nleaves = len(set(tuple(min(x // 16, (1 << (H - 1)) - 1) for x in p) for p in nums))
         B = rng.choice([1, 2, 3, 5, 8, max(1, nleaves // 2), nleaves, nleaves + 1, 1000, 10000000])
